@@ -1,0 +1,252 @@
+//go:build verif
+
+package textwire
+
+import (
+	"fmt"
+	"hash/fnv"
+	"reflect"
+	"sort"
+
+	"github.com/textwire/textwire/v2/ast"
+	"github.com/textwire/textwire/v2/config"
+)
+
+// This file only exists when building with "-tags verif". It gives the
+// verification harness in /verif read access to package-level state and
+// a way to put that state back to its initial value, so that many
+// template trees can be loaded in a single process. It adds nothing to
+// the regular build and doesn't change any existing code path.
+
+// VerifStateSnapshot is a copy of the package-level state
+type VerifStateSnapshot struct {
+	TemplateDir   string
+	TemplateExt   string
+	ErrorPagePath string
+	DebugMode     bool
+	UsesTemplates bool
+	StrFuncs      []string
+	ArrFuncs      []string
+	IntFuncs      []string
+	FloatFuncs    []string
+	BoolFuncs     []string
+}
+
+// VerifReset restores package-level state to its initial values
+func VerifReset() {
+	userConfig = config.New("templates", ".tw.html", "", false)
+	customFunc = config.NewFunc()
+	usesTemplates = false
+}
+
+// VerifResetConfig restores the configuration and the mode flag
+// but keeps registered custom functions
+func VerifResetConfig() {
+	userConfig = config.New("templates", ".tw.html", "", false)
+	usesTemplates = false
+}
+
+// VerifState returns a copy of package-level state
+func VerifState() VerifStateSnapshot {
+	s := VerifStateSnapshot{
+		TemplateDir:   userConfig.TemplateDir,
+		TemplateExt:   userConfig.TemplateExt,
+		ErrorPagePath: userConfig.ErrorPagePath,
+		DebugMode:     userConfig.DebugMode,
+		UsesTemplates: usesTemplates,
+	}
+
+	for k := range customFunc.Str {
+		s.StrFuncs = append(s.StrFuncs, k)
+	}
+
+	for k := range customFunc.Arr {
+		s.ArrFuncs = append(s.ArrFuncs, k)
+	}
+
+	for k := range customFunc.Int {
+		s.IntFuncs = append(s.IntFuncs, k)
+	}
+
+	for k := range customFunc.Float {
+		s.FloatFuncs = append(s.FloatFuncs, k)
+	}
+
+	for k := range customFunc.Bool {
+		s.BoolFuncs = append(s.BoolFuncs, k)
+	}
+
+	sort.Strings(s.StrFuncs)
+	sort.Strings(s.ArrFuncs)
+	sort.Strings(s.IntFuncs)
+	sort.Strings(s.FloatFuncs)
+	sort.Strings(s.BoolFuncs)
+
+	return s
+}
+
+// VerifNames returns the sorted names of registered templates
+func (t *Template) VerifNames() []string {
+	names := make([]string, 0, len(t.programs))
+
+	for name := range t.programs {
+		names = append(names, name)
+	}
+
+	sort.Strings(names)
+
+	return names
+}
+
+// VerifFingerprint returns a deterministic structural hash of all the
+// loaded programs. Map keys are visited in sorted order and pointer
+// identity is recorded as the ordinal of first visit, so two calls
+// return the same value exactly when no reachable node was changed.
+func (t *Template) VerifFingerprint() string {
+	h := fnv.New64a()
+	w := &verifWalker{seen: map[uintptr]int{}, out: func(s string) { h.Write([]byte(s)) }}
+
+	for _, name := range t.VerifNames() {
+		w.out("prog:" + name + ";")
+		w.walk(reflect.ValueOf(t.programs[name]))
+	}
+
+	return fmt.Sprintf("%016x", h.Sum64())
+}
+
+// VerifShared returns the number of AST nodes that are reachable from
+// the attached program of more than one @component use site
+func (t *Template) VerifShared() int {
+	owners := map[uintptr]int{}
+	shared := 0
+	site := 0
+
+	for _, name := range t.VerifNames() {
+		verifEachComponent(t.programs[name], map[*ast.Program]bool{}, func(comp *ast.ComponentStmt) {
+			if comp.Block == nil {
+				return
+			}
+
+			site++
+			w := &verifWalker{seen: map[uintptr]int{}, out: func(string) {}}
+			w.walk(reflect.ValueOf(comp.Block))
+
+			for ptr := range w.seen {
+				if prev, ok := owners[ptr]; ok && prev != site {
+					shared++
+					continue
+				}
+
+				owners[ptr] = site
+			}
+		})
+	}
+
+	return shared
+}
+
+func verifEachComponent(prog *ast.Program, done map[*ast.Program]bool, fn func(*ast.ComponentStmt)) {
+	if prog == nil || done[prog] {
+		return
+	}
+
+	done[prog] = true
+
+	for _, comp := range prog.Components {
+		fn(comp)
+	}
+
+	if prog.UseStmt != nil {
+		verifEachComponent(prog.UseStmt.Program, done, fn)
+	}
+}
+
+type verifWalker struct {
+	seen map[uintptr]int
+	out  func(string)
+}
+
+func (w *verifWalker) walk(v reflect.Value) {
+	if !v.IsValid() {
+		w.out("invalid;")
+		return
+	}
+
+	switch v.Kind() {
+	case reflect.Pointer:
+		if v.IsNil() {
+			w.out("nilptr;")
+			return
+		}
+
+		ptr := v.Pointer()
+
+		if id, ok := w.seen[ptr]; ok {
+			w.out(fmt.Sprintf("ref%d;", id))
+			return
+		}
+
+		w.seen[ptr] = len(w.seen)
+		w.out("ptr:" + v.Type().String() + "{")
+		w.walk(v.Elem())
+		w.out("}")
+	case reflect.Interface:
+		if v.IsNil() {
+			w.out("nilif;")
+			return
+		}
+
+		w.walk(v.Elem())
+	case reflect.Struct:
+		w.out("struct:" + v.Type().String() + "{")
+
+		for i := 0; i < v.NumField(); i++ {
+			w.out(v.Type().Field(i).Name + "=")
+			w.walk(v.Field(i))
+		}
+
+		w.out("}")
+	case reflect.Slice, reflect.Array:
+		if v.Kind() == reflect.Slice && v.IsNil() {
+			w.out("nilslice;")
+			return
+		}
+
+		w.out(fmt.Sprintf("slice%d[", v.Len()))
+
+		for i := 0; i < v.Len(); i++ {
+			w.walk(v.Index(i))
+		}
+
+		w.out("]")
+	case reflect.Map:
+		if v.IsNil() {
+			w.out("nilmap;")
+			return
+		}
+
+		keys := v.MapKeys()
+		sort.Slice(keys, func(i, j int) bool { return keys[i].String() < keys[j].String() })
+
+		w.out(fmt.Sprintf("map%d[", len(keys)))
+
+		for _, k := range keys {
+			w.out(fmt.Sprintf("%q=", k.String()))
+			w.walk(v.MapIndex(k))
+		}
+
+		w.out("]")
+	case reflect.String:
+		w.out(fmt.Sprintf("%q;", v.String()))
+	case reflect.Bool:
+		w.out(fmt.Sprintf("%t;", v.Bool()))
+	case reflect.Int, reflect.Int8, reflect.Int16, reflect.Int32, reflect.Int64:
+		w.out(fmt.Sprintf("%d;", v.Int()))
+	case reflect.Uint, reflect.Uint8, reflect.Uint16, reflect.Uint32, reflect.Uint64, reflect.Uintptr:
+		w.out(fmt.Sprintf("%d;", v.Uint()))
+	case reflect.Float32, reflect.Float64:
+		w.out(fmt.Sprintf("%x;", v.Float()))
+	default:
+		w.out("kind:" + v.Kind().String() + ";")
+	}
+}
